@@ -94,7 +94,7 @@ def generate(R, tier):
                     row = [R.randrange(nt) for _p in range(npar)]
                 xc.append(row)
             steps.append({"op": "mate", "xconfig": xc, "nmating": _counts(R, ncross), "nprogeny": _counts(R, ncross),
-                          "nself": R.choice([0, 0, 0, 1, 2, 3])})
+                          "nself": R.choice([0, 0, 0, 1, 2, 3]), "npscalar": R.random() < 0.2, "xdtype": R.choice(["int64", "int64", "int32", "uint8"])})
     sc["steps"] = steps
     return sc
 
@@ -210,9 +210,13 @@ def _mate_step(sc, st, ix, pg, mp, pname, state, V, log, probes):
     cls, npar, isdh = PROT[pname]
     xo = pg.vrnt_xoprob
     ncross = len(st["xconfig"])
-    xconfig = numpy.array(st["xconfig"], dtype=int).reshape(ncross, npar)
+    xconfig = numpy.array(st["xconfig"], dtype=int).reshape(ncross, npar).astype(st.get("xdtype", "int64"))
     nm = st["nmating"] if isinstance(st["nmating"], int) else numpy.array(st["nmating"], dtype=int)
     npg = st["nprogeny"] if isinstance(st["nprogeny"], int) else numpy.array(st["nprogeny"], dtype=int)
+    if st.get("npscalar"):
+        # NumPy integer scalars are Integral too
+        nm = numpy.int64(nm) if isinstance(nm, int) else nm
+        npg = numpy.int32(npg) if isinstance(npg, int) else npg
     nmv = numpy.broadcast_to(nm, (ncross,)).astype(int)
     npv = numpy.broadcast_to(npg, (ncross,)).astype(int)
     cnt = nmv * npv
